@@ -71,6 +71,9 @@ void
 put(const std::string& path, const std::vector<uint8_t>& data);
 void
 add_dir(const std::string& path);
+// the user deletes a file (no effect on open descriptors' numbering)
+void
+remove(const std::string& path);
 const std::vector<Event>&
 events();
 uint64_t
